@@ -212,34 +212,43 @@ Fixpoint set_nth {A} (n : nat) (x : A) (l : list A) : list A :=
   end.
 
 (** reload: (heap, refs of the new generation, refs of the old generation
-    afterwards, next fresh id) *)
+    afterwards, next fresh id, panicked).  With the pinned quirk a rule of the
+    new spec that matches a previous rule whose limiter was already handed over
+    (two identical rules in the new spec, or a second Inherit from the same
+    generation) receives the nil pointer and [SetStateListener] on it panics. *)
 Fixpoint reload_urls (q : quirks) (snew sold : fspec) (now : Z) (urls : list furl)
-  (h : heap) (oldl : list (option Z)) (next : Z) : heap * list (option Z) * list (option Z) * Z :=
+  (h : heap) (oldl : list (option Z)) (next : Z)
+  : heap * list (option Z) * list (option Z) * Z * bool :=
   match urls with
-  | [] => (h, [], oldl, next)
+  | [] => (h, [], oldl, next, false)
   | u :: t =>
       match find_prev snew sold u (combine (fs_urls sold) oldl) 0 with
       | Some (i, pl) =>
-          let oldl' := if q_rl_inherit_steals_limiter q then set_nth i None oldl else oldl in
-          let '(h', r, o, n) := reload_urls q snew sold now t h oldl' next in
-          (h', pl :: r, o, n)
+          match pl with
+          | None => (h, [], oldl, next, true)          (* nil limiter: panic inside reload *)
+          | Some _ =>
+              let oldl' := if q_rl_inherit_steals_limiter q then set_nth i None oldl else oldl in
+              let '(h', r, o, n, pk) := reload_urls q snew sold now t h oldl' next in
+              (h', pl :: r, o, n, pk)
+          end
       | None =>
           let l := {| lstart := now; lpol := lib_policy (bound_policy snew u); lst := rl0 |} in
-          let '(h', r, o, n) := reload_urls q snew sold now t (hset h next l) oldl (next + 1) in
-          (h', Some next :: r, o, n)
+          let '(h', r, o, n, pk) := reload_urls q snew sold now t (hset h next l) oldl (next + 1) in
+          (h', Some next :: r, o, n, pk)
       end
   end.
 
 Definition empty_spec : fspec := {| fs_policies := []; fs_default := ""; fs_urls := [] |}.
 
 Definition flt_init (h : heap) (s : fspec) (now next : Z) : heap * gen * Z :=
-  let '(h', r, _, n) := reload_urls ideal s empty_spec now (fs_urls s) h [] next in
+  let '(h', r, _, n, _) := reload_urls ideal s empty_spec now (fs_urls s) h [] next in
   (h', {| g_spec := s; g_lims := r |}, n).
 
+(** Inherit: (heap, new generation, old generation afterwards, next id, panicked) *)
 Definition flt_inherit (q : quirks) (h : heap) (s : fspec) (old : gen) (now next : Z)
-  : heap * gen * gen * Z :=
-  let '(h', r, o, n) := reload_urls q s (g_spec old) now (fs_urls s) h (g_lims old) next in
-  (h', {| g_spec := s; g_lims := r |}, {| g_spec := g_spec old; g_lims := o |}, n).
+  : heap * gen * gen * Z * bool :=
+  let '(h', r, o, n, pk) := reload_urls q s (g_spec old) now (fs_urls s) h (g_lims old) next in
+  (h', {| g_spec := s; g_lims := r |}, {| g_spec := g_spec old; g_lims := o |}, n, pk).
 
 Inductive fout :=
 | FPass (wait : Z) (by_rule : option nat)     (* result "" ; by_rule = index of the rule consulted, None = no rule matched *)
@@ -284,6 +293,7 @@ Inductive fop :=
 Inductive fobs :=
 | OGen (refs : list (option Z))       (* identities of the limiter objects of the new generation *)
 | OHandle (o : fout)
+| OInheritPanic                        (* Inherit itself panicked; no new generation exists *)
 | OBad.                                (* reference to a generation that does not exist *)
 
 Record fworld := { w_heap : heap; w_gens : list gen; w_next : Z }.
@@ -298,8 +308,9 @@ Definition fstep (q : quirks) (w : fworld) (o : fop) : fworld * fobs :=
       match nth_error (w_gens w) from with
       | None => (w, OBad)
       | Some old =>
-          let '(h, g, old', n) := flt_inherit q (w_heap w) s old now (w_next w) in
-          ({| w_heap := h; w_gens := set_nth from old' (w_gens w) ++ [g]; w_next := n |}, OGen (g_lims g))
+          let '(h, g, old', n, pk) := flt_inherit q (w_heap w) s old now (w_next w) in
+          if pk then ({| w_heap := h; w_gens := set_nth from old' (w_gens w); w_next := n |}, OInheritPanic)
+          else ({| w_heap := h; w_gens := set_nth from old' (w_gens w) ++ [g]; w_next := n |}, OGen (g_lims g))
       end
   | FHandle gi now matches =>
       match nth_error (w_gens w) gi with
